@@ -239,14 +239,24 @@ func (p *Parser) parseVP8XChunks(buf []byte) error {
 			if animChunks > 0 || isAnim {
 				return ErrInvalidChunk
 			}
-			return p.parseExtSingleImage(buf)
+			rest, err := p.parseExtSingleImage(buf)
+			if err != nil {
+				return err
+			}
+			p.collectTrailingChunks(rest)
+			return nil
 
 		case FourCCALPH:
 			// Alpha before VP8 in extended format, only valid for stills.
 			if animChunks > 0 || isAnim {
 				return ErrInvalidChunk
 			}
-			return p.parseExtSingleImage(buf)
+			rest, err := p.parseExtSingleImage(buf)
+			if err != nil {
+				return err
+			}
+			p.collectTrailingChunks(rest)
+			return nil
 
 		case FourCCICCP:
 			if p.features.HasICCP {
@@ -293,21 +303,55 @@ func (p *Parser) parseVP8XChunks(buf []byte) error {
 	return nil
 }
 
+// collectTrailingChunks records the metadata chunks that follow the image of an
+// extended still (EXIF and XMP are written after the image data). Anything
+// incomplete or unexpected ends the scan silently: the image itself is complete.
+func (p *Parser) collectTrailingChunks(buf []byte) {
+	for len(buf) >= ChunkHeaderSize {
+		fourcc, payloadSize, err := ReadChunkHeader(buf)
+		if err != nil {
+			return
+		}
+		chunkTotal64 := uint64(ChunkHeaderSize) + uint64(payloadSize) + uint64(payloadSize&1)
+		if chunkTotal64 > uint64(len(buf)) {
+			return
+		}
+		payload := buf[ChunkHeaderSize : ChunkHeaderSize+int(payloadSize)]
+		keep := false
+		switch fourcc {
+		case FourCCVP8X, FourCCANIM, FourCCANMF, FourCCVP8, FourCCVP8L, FourCCALPH:
+			return
+		case FourCCICCP:
+			keep = p.features.HasICCP
+		case FourCCEXIF:
+			keep = p.features.HasEXIF
+		case FourCCXMP:
+			keep = p.features.HasXMP
+		default:
+			keep = true
+		}
+		if keep && len(p.chunks) < MaxChunks && payloadSize <= MaxMetadataSize {
+			p.chunks = append(p.chunks, Chunk{FourCC: fourcc, Payload: copyBytes(payload)})
+		}
+		buf = buf[int(chunkTotal64):]
+	}
+}
+
 // parseExtSingleImage parses a single image from an extended format file.
-// buf starts at the ALPH or VP8/VP8L chunk.
-func (p *Parser) parseExtSingleImage(buf []byte) error {
+// buf starts at the ALPH or VP8/VP8L chunk. It returns what follows the image chunk.
+func (p *Parser) parseExtSingleImage(buf []byte) ([]byte, error) {
 	var frame FrameInfo
 	var alphPayload []byte
 
 	for len(buf) >= ChunkHeaderSize {
 		fourcc, payloadSize, err := ReadChunkHeader(buf)
 		if err != nil {
-			return err
+			return nil, err
 		}
 		padded64 := uint64(payloadSize) + uint64(payloadSize&1)
 		chunkTotal64 := uint64(ChunkHeaderSize) + padded64
 		if chunkTotal64 > uint64(len(buf)) {
-			return ErrTruncated
+			return nil, ErrTruncated
 		}
 		chunkTotal := int(chunkTotal64)
 
@@ -323,11 +367,11 @@ func (p *Parser) parseExtSingleImage(buf []byte) error {
 
 		case FourCCVP8L:
 			if alphPayload != nil {
-				return ErrInvalidChunk // VP8L has its own alpha, no separate ALPH
+				return nil, ErrInvalidChunk // VP8L has its own alpha, no separate ALPH
 			}
 			w, h, alpha, err := parseVP8LHeader(payload)
 			if err != nil {
-				return err
+				return nil, err
 			}
 			frame.Width = w
 			frame.Height = h
@@ -340,12 +384,12 @@ func (p *Parser) parseExtSingleImage(buf []byte) error {
 			p.features.Width = w
 			p.features.Height = h
 			p.frames = append(p.frames, frame)
-			return nil
+			return buf[chunkTotal:], nil
 
 		case FourCCVP8:
 			w, h, err := parseVP8Header(payload)
 			if err != nil {
-				return err
+				return nil, err
 			}
 			frame.Width = w
 			frame.Height = h
@@ -355,7 +399,7 @@ func (p *Parser) parseExtSingleImage(buf []byte) error {
 			p.features.Width = w
 			p.features.Height = h
 			p.frames = append(p.frames, frame)
-			return nil
+			return buf[chunkTotal:], nil
 
 		default:
 			// Not an image chunk, stop.
@@ -364,7 +408,7 @@ func (p *Parser) parseExtSingleImage(buf []byte) error {
 		break
 	}
 
-	return ErrInvalidChunk
+	return nil, ErrInvalidChunk
 }
 
 // parseANMF parses an ANMF chunk payload into a FrameInfo.
